@@ -93,8 +93,9 @@ Print Assumptions C15_faults_results_between_builds.
 (* guards (decidable, [hist_guardb], evaluated on the mode-all run): every build has the cache
    enabled; its snapshot has no overlapping outputs, only cacheable targets with a command, and no
    dependency list longer than the node count; no key collision is met (each node's key is fresh in
-   its build and a result found under it lists the same outputs); no perturbation puts a directory
-   where a file is declared; no blob is dropped (OpDropResults is allowed) *)
+   its build and a result found under it lists the same outputs); no blob is dropped (OpDropResults is
+   allowed).  Perturbations of output paths are unrestricted: also a directory where a file is declared
+   (the restore replaces it since the repair of C06-F3; the guard used to exclude it) *)
 Theorem C15_lockstep_partial : forall (H : str -> str),
   (forall a b, H a = H b -> a = b) ->
   forall ops, hist_guardb H sys0 ops = true ->
@@ -129,13 +130,13 @@ Theorem C15_lockstep_build_partial : forall (H : str -> str),
   cfg_mode cfgA = LAll -> cfg_mode cfgM = LMinimal -> cfg_cache cfgA = true -> cfg_cache cfgM = true ->
   cfg_failfast cfgA = cfg_failfast cfgM -> no_overwrite s -> plain s ->
   forall c0 roots wA wM,
-  deps_short s -> cinv H c0 -> nowk (w_ws wA) -> nowk (w_ws wM) -> w_ext wA = w_ext wM ->
+  deps_short s -> cinv H c0 -> w_ext wA = w_ext wM ->
   build_guard H cfgA s c0 roots wA ->
   let rA := build H cfgA s roots wA c0 in
   let rM := build H cfgM s roots wM c0 in
   br_ok rA = br_ok rM /\ br_status rA = br_status rM /\ br_exec rA = br_exec rM /\
   br_cache rA = br_cache rM /\ w_ext (br_world rA) = w_ext (br_world rM) /\
-  cinv H (br_cache rA) /\ nowk (w_ws (br_world rA)) /\ nowk (w_ws (br_world rM)) /\
+  cinv H (br_cache rA) /\
   (forall j tj o, node_at s j = Some (NTarget tj) ->
      rt_loaded (get_rt (build_prefix H cfgM s roots wM c0 (length (s_nodes s))) j) = true ->
      In o (td_outs tj) ->
@@ -144,7 +145,7 @@ Theorem C15_lockstep_build_partial : forall (H : str -> str),
 Proof. exact build_lockstep. Qed.
 Print Assumptions C15_lockstep_build_partial.
 
-(* the guards are needed: a lost blob, a cache-disabled build, a directory at a file output *)
+(* the guards are needed: a lost blob, a cache-disabled build *)
 Theorem C15_lockstep_refuted :
   exists (ops : lmode -> list op) s roots p,
     (forall m, ops m = [OpSources s; OpBuild (mkCfg m true false) roots; OpDropBlob p;
@@ -163,11 +164,20 @@ Theorem C15_lockstep_cache_off_refuted :
 Proof. exact lockstep_refuted_cache_off. Qed.
 Print Assumptions C15_lockstep_cache_off_refuted.
 
-Theorem C15_lockstep_wrongkind_refuted :
-  nth 1 (x_exec LAll x_ops_wrongkind) [] = [["a"]]%char /\
-  nth 1 (x_exec LMinimal x_ops_wrongkind) [] = [].
-Proof. exact lockstep_refuted_wrongkind. Qed.
-Print Assumptions C15_lockstep_wrongkind_refuted.
+(* the history that used to refute the lock-step for "a directory at a file output's path" (build, put a
+   directory where a's output belongs, build; formerly C15_lockstep_wrongkind_refuted: mode all re-ran a)
+   now meets the guard and is in lock-step: neither mode runs anything in the second build, same statuses;
+   mode all has replaced the directory by the cached file, mode minimal has not touched the path *)
+Theorem C15_lockstep_wrongkind_in_lockstep :
+  hist_guardb hI sys0 (x_ops_wrongkind LAll) = true /\
+  nth 1 (x_exec LAll x_ops_wrongkind) [["?"]]%char = [] /\
+  nth 1 (x_exec LMinimal x_ops_wrongkind) [["?"]]%char = [] /\
+  nth 1 (x_stat LAll x_ops_wrongkind) [] = [THit; THit; THit] /\
+  nth 1 (x_stat LMinimal x_ops_wrongkind) [] = [THit; THit; THit] /\
+  (exists c, ws_get x_pa (w_ws (sy_world (run_history hI (x_ops_wrongkind LAll)))) = PFile c) /\
+  ws_get x_pa (w_ws (sy_world (run_history hI (x_ops_wrongkind LMinimal)))) = PWrongKind.
+Proof. exact wrongkind_in_lockstep. Qed.
+Print Assumptions C15_lockstep_wrongkind_in_lockstep.
 
 (* ---------------------------------------------------------------- non-vacuity *)
 (* a <- alias <- b, a <- c: build, edit, build, lose an output + edit, build, lose all results, build *)
